@@ -16,7 +16,7 @@ CORR_OBLIGATIONS = ["M-mixin (stage 1) ~ the real handler machine on syntactic v
                     "event streams of infoset-equivalent spellings differ ONLY in data chunking and attribute order (recorded from the strict back end; infoset equality judged by an independent expat tokenisation)"]
 TRUSTED = C19.TRUSTED + ["tools/xmlrw.py: the rewriter; every variant is re-tokenised with expat and its infoset compared with the original's before it is used",
                          "expat + xml.sax deliver comments / PIs to nobody and attributes as a mapping (validated by the second correspondence obligation)"]
-ASSUMPTIONS = ["attribute-order irrelevance is shown on the model for lookups (attrs_d is only ever read by key); order of xmlns declarations that bind two differently-spelled URIs of one recognised namespace is outside the generator"]
+ASSUMPTIONS = ["attribute-order irrelevance is a theorem for lookups (attribute_order_irrelevant: with distinct names every attrs_d.get(name) is the same for every permutation; sget_dictOf: the last attribute of a name wins); the handlers read attrs_d only by key, the fallback stores it as a mapping; order of xmlns declarations that bind two differently-spelled URIs of one recognised namespace is outside the generator"]
 
 HDR = {"content-type": "application/xml; charset=utf-8"}
 XHTML = ["<p>plain <b>bold</b> text</p>", "<div><ul><li>a</li><li>b &amp; c</li></ul></div>", "<p>x<br/>y</p>", '<p><a href="http://example.org/?a=1&amp;b=2" title="t">l</a> <em>e</em></p>',
